@@ -84,6 +84,33 @@ func runIndentPair(c *Ctx, r *Reporter) {
 			closers[sf] = true
 		}
 	}
+	// … when it is used as one half of a pair: some function calls an opener and a closer. A function that merely lost
+	// its own decrement has no partner and is reported itself.
+	pairedO, pairedC := map[*ssa.Function]bool{}, map[*ssa.Function]bool{}
+	for sf := range direct {
+		var os, cs []*ssa.Function
+		for _, b := range sf.Blocks {
+			for _, ins := range b.Instrs {
+				if call, ok := ins.(*ssa.Call); ok && call.Call.StaticCallee() != nil {
+					if openers[call.Call.StaticCallee()] {
+						os = append(os, call.Call.StaticCallee())
+					}
+					if closers[call.Call.StaticCallee()] {
+						cs = append(cs, call.Call.StaticCallee())
+					}
+				}
+			}
+		}
+		if len(os) > 0 && len(cs) > 0 {
+			for _, o := range os {
+				pairedO[o] = true
+			}
+			for _, c := range cs {
+				pairedC[c] = true
+			}
+		}
+	}
+	openers, closers = pairedO, pairedC
 	for _, fd := range order {
 		sf := p.SSAFunc(fd.Obj)
 		ch := direct[sf]
